@@ -34,7 +34,13 @@ RULE = ('finite_diff: method x pad_mode x axis length n (1..9, every n listed se
 TRUSTED = ['translator tools/extract/finite_diff.py: REGENERATES (AST -> Gen/FiniteDiff.lean) the 3 '
            'interior bands, the 30 boundary leaves, the size guards, _ADJ_METHOD/_ADJ_PADDING, the '
            'supported lists, the pad modes Laplacian refuses, and per class the flags "linear rule '
-           'in __init__" / "is_linear guard in .adjoint"; everything else of diff_ops.py that the '
+           'in __init__" / "is_linear guard in .adjoint" (chains may test `v == lit`, `v in (lits)` '
+           'or an `or` of those; the interior stencil may be an if-chain or a module-level table of '
+           'slices; a module table that is not a literal is read from the LIVE module of the tree '
+           'under test, recorded as table_sources in the evidence, and refused if anything below '
+           'module level could change it; an unreadable interior stencil keeps the committed bands, '
+           'breaks only that obligation and triggers a row-by-row comparison in the search); '
+           'everything else of diff_ops.py that the '
            'model mirrors is HAND-WRITTEN in Model/FiniteDiff.lean (prologue of finite_diff, '
            '`/ dx`, size-check semantics, line-wise N-d action, Gradient/Divergence/Laplacian '
            'accumulation, which instance .adjoint/.derivative build) and only PINNED as '
@@ -1046,9 +1052,69 @@ def fd_variants_stream(ctx, reps):
 
 
 def regenerate(ctx):
-    changed = extract_fd.regenerate()
-    return [('extract(diff_ops.py -> Gen/FiniteDiff.lean)', True,
-             'regenerated' if changed else 'unchanged')]
+    changed, partial, sources = extract_fd.regenerate()
+    ctx.extra['table_sources'] = sources
+    live = sorted(n for n, src in sources.items() if src == 'live')
+    obs = [('extract(diff_ops.py -> Gen/FiniteDiff.lean)', True,
+            ('regenerated' if changed else 'unchanged') +
+            ('; built at import time, values read from the LIVE module of the tree under test: ' +
+             ', '.join(live) if live else '; module tables read from AST literals'))]
+    for what, why in sorted(partial.items()):
+        # this artefact could not be read from the source: the committed Gen values were kept,
+        # everything else was regenerated; the obligation is broken -> search()
+        obs.append(('extract({} of finite_diff)'.format(what), False,
+                    'code shape outside the grammar, committed Gen values kept: ' + why))
+    return obs
+
+
+def interior_rows_search(ctx, broken):
+    """The interior-stencil code could not be read.  Compare every interior row of the real
+    finite_diff with the bands kept in Gen (through the driver), all methods x pad modes x
+    n = 3..16, and say in the broken obligation what came out."""
+    cases, lines = [], []
+    for m, p, n in itertools.product(METHODS, PADS, range(3, 17)):
+        if n < REF_NMIN.get(p, 2):
+            continue
+        try:
+            st, b, cols = impl_matrix(m, p, n, 1.0, 0)
+        except ValueError:
+            st, b, cols = 'err:nonfinite-output', None, None
+        cases.append((m, p, n, st, cols))
+        lines.append('mat method={} pad={} n={} dx=1 c=0'.format(m, p, n))
+    outs = core.run_driver('C13', lines)
+    rows = differ = 0
+    first = None
+    for (m, p, n, st, cols), ans in zip(cases, outs):
+        if st != 'ok' or not ans.startswith('ok b='):
+            differ += 1
+            first = first or 'finite_diff method={} pad_mode={} n={}: code {} / model {}'.format(
+                m, p, n, st, ans[:40])
+            continue
+        fields = dict(t.split('=', 1) for t in ans.split()[1:])
+        mcols = [parse_cl(r) for r in fields['m'].split(';')]
+        ref = ref_matrix(m, p, n, 1.0)
+        for i in range(1, n - 1):
+            rows += 1
+            got = [cols[j][i] for j in range(n)]
+            if got != [mcols[j][i] for j in range(n)] or got != ref[i]:
+                differ += 1
+                if first is None:
+                    first = ('finite_diff method={} pad_mode={} n={} interior row {}: code {} / '
+                             'kept Gen band {} / reference {}'.format(
+                                 m, p, n, i, cl(got), cl([mcols[j][i] for j in range(n)]),
+                                 cl(ref[i])))
+                    ctx.violation('finite_diff method={} pad_mode={} n={} dx=1.0 pad_const=0'
+                                  .format(m, p, n), first,
+                                  dict(kind='mat', method=m, pad=p, n=n, dx=1.0, c=0))
+    msg = (' | search: {} interior rows of the real finite_diff (3 methods x 10 pad modes x '
+           'n=3..16) compared with the kept Gen bands and with the reference stencil: {} differ'
+           .format(rows, differ)) + ('' if first is None else '; first: ' + first)
+    ctx.extra['interior_rows_compared'] = rows
+    ctx.extra['interior_rows_differing'] = differ
+    ctx.notes.append(msg.strip(' |'))
+    for o in broken:
+        if 'interior stencil' in o.name:
+            o.detail = o.detail[:150] + msg
 
 
 def run(ctx):
@@ -1071,6 +1137,8 @@ def run(ctx):
 def search(ctx, broken):
     """Obligation / extraction / correspondence broke without an oracle failure in `run`:
     look harder on the real code with the oracle."""
+    if any('interior stencil' in o.name for o in broken):
+        interior_rows_search(ctx, broken)
     fd_matrix_stream(ctx, list(range(1, 14)), EXACT_DXC)
     fd_vector_stream(ctx, list(range(2, 14)), 6)
     fd_variants_stream(ctx, 40)
